@@ -1,7 +1,7 @@
 (* C05 — records stay in normal form: formal attributes single-valued, typed,
    normalised.  Statements only; proofs in theories/RecordProofs.v. *)
 From Coq Require Import String List ZArith.
-From Prov Require Import Str Sexp Tables Nsm Values Record RecordProofs IsoProofs TimeProofs.
+From Prov Require Import Str Sexp Tables Nsm NsmProofs Values Record RecordProofs IsoProofs TimeProofs IdemProofs.
 Import ListNotations.
 Open Scope string_scope.
 
@@ -105,6 +105,35 @@ Example C05_entry_path_datetime_nonvacuous :
      mkDt 2024 2 29 0 0 0 500 (Some (-480)%Z); mkDt 1 1 1 0 0 0 0 None;
      mkDt 9999 12 31 23 59 59 1 (Some 0%Z)] = true.
 Proof. vm_compute. reflexivity. Qed.
+
+(* normalisation is idempotent on stored values: re-inserting what a record holds (add_record, update,
+   flattened, unified, copy) gives the same value, names and datatypes keeping their URI, and never drops or
+   refuses it *)
+Theorem C05_normalisation_idempotent : forall c m v,
+  InvU m -> stored (cft c) v ->
+  match auto_conv c m (value_to_arg v) with
+  | Done m' (Some v') => same_value v v' /\ InvU m'
+  | Done _ None => False
+  | Fail _ _ => False
+  | OOD => True
+  end.
+Proof. exact auto_conv_stored. Qed.
+Print Assumptions C05_normalisation_idempotent.
+Theorem C05_reference_idempotent : forall c m q,
+  InvU m ->
+  match qn_value c m (value_to_arg (VQn q)) with
+  | Done m' (Some v') => same_value (VQn q) v' /\ InvU m'
+  | Done _ None => False
+  | Fail _ _ => False
+  | OOD => True
+  end.
+Proof. exact qn_value_stored. Qed.
+Example C05_stored_examples :
+  stored [] (VLit "abc" (Some (xsd_qn "dateTime")) None) /\
+  stored [] (VLit "x" (Some (mkQn (mkNs "ex" "http://e/") "T")) None) /\
+  stored [] (VLit "hi" (Some (prov_qn "InternationalizedString")) (Some "en")) /\
+  ~ stored [] (VLit "5" (Some (xsd_qn "int")) None).
+Proof. exact stored_examples. Qed.
 
 (* non-vacuity: a normal record with a formal value; the hypotheses of the refusal
    theorem are met and it computes to a refusal *)
